@@ -935,9 +935,11 @@ def op_site(st, rec):
 
 
 def execute(sempler, run_seed, ops, pristine_budget=4):
+    from .world import interpreter_state
     w = World(sempler, run_seed, PROP)
     st = State()
     w.st = st
+    gstate = interpreter_state()
     for i, rec in enumerate(ops):
         w.step = i
         op = rec["op"]
@@ -954,10 +956,16 @@ def execute(sempler, run_seed, ops, pristine_budget=4):
             continue
         w.record(rec, od)
         failed = out is not None and out[0] == "exc"
+        ns = interpreter_state()
+        if ns != gstate:
+            if op in HANDLERS and op not in ("np.seterr",):
+                w.err_changed.append({"process_global_state": sorted(k for k in ns if ns[k] != gstate[k])})
+            gstate = ns
         if w.err_changed:
             w.violate("result_depends_on_history", site,
-                      {"how": "the call left numpy's floating-point error state (np.seterr) of the caller changed; "
-                              "what later operations return or raise now depends on this call", "changed": w.err_changed[0]})
+                      {"how": "the call left process-global state of the caller changed (numpy error state, print "
+                              "options, recursion limit, stdlib random state, environment, cwd); what later operations "
+                              "return or raise now depends on this call", "changed": w.err_changed[0]})
             w.err_changed = []
         check_models(w, st, site, failed=failed, after_scribble=(op == "fault.scribble"))
         check_results(w, st, site)
